@@ -674,7 +674,6 @@ func nodeStringAny(p *Prog, n ast.Node) string {
 	return sb.String()
 }
 
-
 func c01ImportFlag(c *Ctx) {
 	p := c.P
 	pk := p.Pkg("private/bufpkg/bufimage")
